@@ -50,6 +50,7 @@ def gen(rng, tier, quarantine=()):
         qual, fnir = "rf", dict(fns)["rf"]
     inst = "k1"
     ops = []
+    live = []
     route = rng.choice(["copy", "inplace", "probes", "probes", "probes", "probes"])
     if qual.startswith("K.") or fnir.get("kind") == "deco":
         if route == "copy":
@@ -76,7 +77,13 @@ def gen(rng, tier, quarantine=()):
         if (short in GEN_FNS or (generated and is_gen)) and rng.random() < 0.7:
             g = f"g{c}"
             ops.append({"op": "gen_new", "gen": g, "fn": qual, "nargs": 1})
-            for _ in range(rng.randint(1, 6)):
+            nsteps = rng.randint(1, 6)
+            # the probes may all go away while the generator exists -- even before it is first advanced
+            leave_at = rng.randrange(nsteps) if (route == "probes" and rng.random() < 0.35) else None
+            for j in range(nsteps):
+                if j == leave_at:
+                    while live:
+                        ops.append({"op": "exit", "id": live.pop(rng.randrange(len(live)))})
                 k = rng.choice(["gen_next"] * 4 + ["gen_send"] * 3 + ["gen_throw"] * 2 + ["gen_close", "gen_drop"])
                 ops.append({"op": k, "gen": g, "tape": gen_tape(rng, 8),
                             "faults": gen_faults(rng, 8, rng.choice([0, 0, 1]))})
